@@ -119,6 +119,7 @@ type Collector struct {
 	Evals      int
 	Samples    []interface{}
 	Extra      map[string]interface{}
+	ShardSize  int // cases per cases_<k>.v; 0 = default (observers with heavy cases lower it so that shards run in parallel)
 	maxViol    int
 }
 
@@ -167,6 +168,10 @@ func (c *Collector) Write(dir string) error {
 		os.Remove(f)
 	}
 	shards := [][]string{}
+	shardSize := shardSize
+	if c.ShardSize > 0 {
+		shardSize = c.ShardSize
+	}
 	for i := 0; i < len(c.Cases); i += shardSize {
 		j := i + shardSize
 		if j > len(c.Cases) {
